@@ -60,11 +60,26 @@ func arena(l layout) (backing, dst []byte) {
 			backing[i] = 0xEE
 		}
 	}
+	// the destination ends like a fragment of JSON text: nothing that is appended may look back
+	// at, or rewrite, what is already there
+	tail := prefixTails[(l.p*31+l.c*7)%len(prefixTails)]
+	if l.p >= len(tail) {
+		copy(backing[guard+l.p-len(tail):guard+l.p], tail)
+	}
 	return backing, backing[guard : guard+l.p : guard+l.p+l.c]
 }
 
+var prefixTails = []string{"e-0", "e+0", "1e-0", "\\", "\"", "\\u00", "tru", "-", ".", "0", "\\\"", ",", ":", "[", "{", "nul", "e-09", "E-0", "\u00e9"[:2]}
+
 func checkArena(c *core.Case, class, what string, l layout, backing, res []byte, detail func() string) bool {
 	ok := true
+	orig := make([]byte, guard+l.p) // what the destination held before the call
+	for i := guard; i < guard+l.p; i++ {
+		orig[i] = byte('a' + i%23)
+	}
+	if tail := prefixTails[(l.p*31+l.c*7)%len(prefixTails)]; l.p >= len(tail) {
+		copy(orig[guard+l.p-len(tail):], tail)
+	}
 	for i := 0; i < guard; i++ {
 		if backing[i] != 0xA5 || backing[len(backing)-1-i] != 0xA5 {
 			c.Violation(class, "guard-overwritten", fmt.Sprintf("%s: a guard byte outside the destination's capacity changed (prefix %d, spare %d) %s", what, l.p, l.c, detail()), map[string]any{"prefix": l.p, "spare": l.c})
@@ -73,7 +88,7 @@ func checkArena(c *core.Case, class, what string, l layout, backing, res []byte,
 		}
 	}
 	for i := 0; i < l.p; i++ {
-		if backing[guard+i] != byte('a'+(guard+i)%23) {
+		if backing[guard+i] != orig[guard+i] {
 			c.Violation(class, "prefix-overwritten", fmt.Sprintf("%s: byte %d of the destination below len(b) changed (prefix %d, spare %d) %s", what, i, l.p, l.c, detail()), map[string]any{"prefix": l.p, "spare": l.c})
 			ok = false
 			break
@@ -84,7 +99,7 @@ func checkArena(c *core.Case, class, what string, l layout, backing, res []byte,
 		return false
 	}
 	for i := 0; i < l.p; i++ {
-		if res[i] != byte('a'+(guard+i)%23) {
+		if res[i] != orig[guard+i] {
 			c.Violation(class, "result-prefix-diff", fmt.Sprintf("%s: result does not start with the destination's bytes (first difference at %d; prefix %d, spare %d) %s", what, i, l.p, l.c, detail()), map[string]any{"prefix": l.p, "spare": l.c})
 			return false
 		}
@@ -322,7 +337,7 @@ func min(a, b int) int {
 func init() {
 	core.Register(&core.Monitor{
 		Prop:    "C15",
-		Rule:    "values: a generated / library value (weighted to []byte fields, ',string' fields, embedded nil pointers, error-producing leaves) and a flag set (EscapeHTML, SortMapKeys, TrustRawMessage combinations; SortMapKeys always on so the output is deterministic) are appended to 56 destination layouts [guard 64][prefix p][spare c][guard 64] with p in {0,1,7,8,9,63,4095,4096} and c in {0,1,n-1,n,n+1,2n,64 KiB}, n = len(Append(nil,v,f)); after each call: result begins with the prefix, the rest equals Append(nil,v,f), err==nil iff it is for the nil destination, the prefix region and both guards of the backing array are unchanged. capacity-sweep: the same values (encoded size <= 400) with EVERY spare capacity from 0 to n+2 at prefix 0 and 3. rollback: values with NaN/Inf/chan nested in slices, maps, arrays, interfaces and next to embedded nil pointers. escape: AppendEscape / AppendUnescape on the same layouts. Distinct by (type, case).",
+		Rule:    "values: a generated / library value (weighted to []byte fields, ',string' fields, embedded nil pointers, error-producing leaves) and a flag set (EscapeHTML, SortMapKeys, TrustRawMessage combinations; SortMapKeys always on so the output is deterministic) are appended to 56 destination layouts [guard 64][prefix p][spare c][guard 64] (the prefix ends in one of 19 JSON-looking fragments such as e-0, a backslash, an open quote, tru) with p in {0,1,7,8,9,63,4095,4096} and c in {0,1,n-1,n,n+1,2n,64 KiB}, n = len(Append(nil,v,f)); after each call: result begins with the prefix, the rest equals Append(nil,v,f), err==nil iff it is for the nil destination, the prefix region and both guards of the backing array are unchanged. capacity-sweep: the same values (encoded size <= 400) with EVERY spare capacity from 0 to n+2 at prefix 0 and 3. rollback: values with NaN/Inf/chan nested in slices, maps, arrays, interfaces and next to embedded nil pointers. escape: AppendEscape / AppendUnescape on the same layouts. Distinct by (type, case).",
 		Trusted: []string{"canary layout in the harness; Append(nil, v, f) of the same build as the reference for the appended bytes (its own correctness is C01/C14)"},
 		Subs: []core.Sub{
 			{Name: "values", N: core.Const(5000, 100000), Run: runValues},
